@@ -345,17 +345,23 @@ static inline int64_t local_pow(int b, int n)
 
 float32_t igris_atof32(const char *str, char **pend)
 {
-    if (!igris_isdigit(*str) && *str != '-')
+    const char *start = str;
+    uint8_t minus = *str == '-' ? 1 : 0;
+    if (*str == '-' || *str == '+')
+        str++;
+
+    if (!igris_isdigit(*str) && !(*str == '.' && igris_isdigit(str[1])))
     {
+        /* not a number: nothing is consumed */
+        if (pend)
+            *pend = (char *)start;
         return 0;
     }
 
-    uint8_t minus = *str == '-' ? 1 : 0;
-    if (minus)
-        str++;
-
-    char *end;
-    unsigned int u = igris_atou32(str, 10, &end);
+    char *end = (char *)str;
+    unsigned int u = 0;
+    if (igris_isdigit(*str))
+        u = igris_atou32(str, 10, &end);
 
     str = end;
     if (*str == '.')
